@@ -5,10 +5,14 @@ META = {
                    "recipient is the current primary owner, it is sent the message at most once and only after its policy allowed it, a refused or undeliverable call "
                    "is delivered to no one and earns its sender an error, the transaction is executed xor cancelled exactly once.",
     "outside": ["real sockets, slow readers, libdbus's outgoing queue", "ordering across several bus_dispatch invocations (each runs to completion single-threaded)",
-                "FIFO order inside one transaction (connection_execute_transaction; harness OP=3 of C09 not decided)", "that body and header fields arrive intact (C02/C12)"],
+                "FIFO order among several messages staged for one connection in one transaction (only single-message transactions are executed here)", "that body and header fields arrive intact (C02/C12)"],
 }
 def _other(pid):
     p = os.path.join(os.path.dirname(__file__), pid + ".py")
     spec = importlib.util.spec_from_file_location("vfjobs_x_" + pid, p); m = importlib.util.module_from_spec(spec); m.Job = Job; spec.loader.exec_module(m); return m
 def jobs(tier):
-    return _other("C03").dispatch_jobs("C05.a+b")
+    J = _other("C03").dispatch_jobs("C05.a+b")
+    for j in _other("C09").jobs(tier):
+        if j.name == "error_reply" or j.name.startswith("expire."):
+            j.group = "C05.c+d"; J.append(j)
+    return J
